@@ -228,7 +228,9 @@ def _run(spec, tier, seed, tmp, t0):
             continue
         sym_panic = bool(w.get("panic"))
         nat_panic = bool(nat.get("panic"))
-        if (nat.get("obs") or []) != (w.get("obs") or []) or sym_panic != nat_panic:
+        if nat.get("failures") and not w.get("violating"):
+            mismatches.append("%s: native run reports failures the engine did not predict: %s" % (cid, nat["failures"][:3]))
+        elif (nat.get("obs") or []) != (w.get("obs") or []) or sym_panic != nat_panic:
             mismatches.append("%s: engine predicted obs=%s panic=%r, native gave obs=%s panic=%r" % (
                 cid, w.get("obs"), w.get("panic"), nat.get("obs"), nat.get("panic")))
         else:
